@@ -201,6 +201,21 @@ def enum_valid(program, prims, families, counts):
     yield from rec(0)
 
 
+POST = {}
+
+
+def solve_under_pins(solver, prims, leaf):
+    """The reported solution of one admitted leaf: the real solve()/build_solution() under the leaf's pins."""
+    zs = solver._solver
+    zs.push()
+    try:
+        zs.add(*ex.pins_of(prims, leaf))
+        with boot.quiet():
+            return solver.solve()
+    finally:
+        zs.pop()
+
+
 def analyze(job):
     """job: {"program", "solver": {}, "families": [...], "directions": "S"|"K"|"SK", "max_checks": int,
              "prim_opts": {...}}"""
@@ -220,12 +235,15 @@ def analyze(job):
         prims = ex.primaries(built, **(job.get("prim_opts") or {}))
         stats = ex.Stats()
         A = set()
+        leaves = [] if job.get("post") else None
         n_inv = n_val = n_uns = 0
         seen_sig = {}
         capped = False
         try:
             for leaf in ex.explore(solver._solver, prims, stats, max_checks=job.get("max_checks", 400000)):
                 A.add(ex.leaf_key(leaf))
+                if leaves is not None:
+                    leaves.append(leaf)
                 if "S" not in directions:
                     continue
                 cl = ref.clauses(program, leaf, families)
@@ -300,6 +318,16 @@ def analyze(job):
                 if sol and stats.admitted == 0 and stats.unknown_leaves == 0:
                     sig = {"dir": "verdict", "what": "solution-returned-but-box-empty", "features": features(program)}
                     seen_sig[json.dumps(sig, sort_keys=True)] = [1, {"program": program, "leaf": [], "solver": solver_kw, "expect": "reject"}, sig]
+        if job.get("post") and not capped:
+            n_post = 0
+            for (sig, inst) in POST[job["post"]](program, built, solver, prims, leaves, job):
+                n_post += 1
+                key = json.dumps(sig, sort_keys=True)
+                k = seen_sig.setdefault(key, [0, None, sig])
+                k[0] += 1
+                if k[1] is None:
+                    k[1] = inst
+            res["post_checked"] = len(leaves)
         for key, (cnt, inst, sig) in seen_sig.items():
             res["viol"].append({"sig": sig, "count": cnt, "instance": inst})
         res["stats"] = {"nodes": stats.nodes, "checks": stats.checks, "admitted": stats.admitted,
